@@ -122,6 +122,28 @@ pub fn run(ctx: &Ctx) -> Result<(), String> {
             }
         }
     }
+    // lists of unknown version numbers whose BYTES contain 0c 00 00 80 across an entry boundary (the
+    // list is a list of 4-byte entries, not a byte string to search)
+    for shift in 1..4usize {
+        // a || b contains the draft-13 bytes at byte offset `shift`
+        let mut ab = vec![0u8; 8];
+        ab[shift..shift + 4].copy_from_slice(&VER_IETF13);
+        let (a, b) = (ab[..4].to_vec(), ab[4..].to_vec());
+        let unknown = [0x01u8, 0, 0, 0x80];
+        let lists: Vec<Vec<u8>> = vec![
+            [a.clone(), b.clone()].concat(),
+            [vec![0u8; 4], a.clone(), b.clone()].concat(),
+            [a.clone(), b.clone(), vec![0u8; 4]].concat(),
+            [unknown.to_vec(), a.clone(), b.clone()].concat(),
+            [unknown.to_vec(), unknown.to_vec(), a.clone(), b.clone()].concat(),
+            [a.clone(), b.clone(), a.clone(), b.clone()].concat(),
+        ];
+        for l in lists {
+            for (sl, s) in &srvs {
+                cases.push(Case { ver: Some(l.clone()), srv: s.clone(), label: format!("verlist-cross-boundary/srv-{}", sl), extra: 0 });
+            }
+        }
+    }
     let table_n = cases.len();
     // minimal list: SRV under every single-bit corruption, wrong lengths, another server's value
     for bit in 0..256 {
@@ -240,7 +262,7 @@ pub fn run(ctx: &Ctx) -> Result<(), String> {
     ctx.cov("outcome_classes", json!(cls));
     ctx.cov("exhaustive", json!(true));
     ctx.cov("bound", json!({"ver_list_len_max": maxlen, "ver_alphabet": VERS.iter().map(|v| hex(v)).collect::<Vec<_>>(), "srv_bitflips": 256}));
-    ctx.cov("rule", json!(format!("truth table: every VER list of length 0..={} over {{draft-13, classic 0, 0x80000001, 0x8000000b, 0xffffffff}} plus VER absent, x SRV {{absent, correct, another server's}}; the lists of length <= 2 again with additional tags (SIG before VER; SIG and DELE; PAD after ZZZZ) that move VER/SRV/NONC to other field positions; for the minimal list SRV under each of the 256 single-bit corruptions and lengths 0/4/28/36/64. Each request is one transition on a long-running real in-process Server (one per shard, alive-check by sentinel at the end); the whole table runs in five server states: batch_size 64 one request per poll cycle, batch_size 1/2/4 with requests arriving in groups that fill the batch exactly, and batch_size 64 after a full batch of 64 valid requests. Oracle (3-valued): must answer iff draft-13 among the first four entries and SRV absent/correct; must not answer if the list lacks draft-13 or SRV differs; may if draft-13 only at position >= 5; every reply authentic with SREP.VER = draft-13 and VERS containing it.", maxlen)));
+    ctx.cov("rule", json!(format!("truth table: every VER list of length 0..={} over {{draft-13, classic 0, 0x80000001, 0x8000000b, 0xffffffff}} plus VER absent, x SRV {{absent, correct, another server's}}; lists of unknown numbers whose bytes spell the draft-13 number across an entry boundary; the lists of length <= 2 again with additional tags (SIG before VER; SIG and DELE; PAD after ZZZZ) that move VER/SRV/NONC to other field positions; for the minimal list SRV under each of the 256 single-bit corruptions and lengths 0/4/28/36/64. Each request is one transition on a long-running real in-process Server (one per shard, alive-check by sentinel at the end); the whole table runs in five server states: batch_size 64 one request per poll cycle, batch_size 1/2/4 with requests arriving in groups that fill the batch exactly, and batch_size 64 after a full batch of 64 valid requests. Oracle (3-valued): must answer iff draft-13 among the first four entries and SRV absent/correct; must not answer if the list lacks draft-13 or SRV differs; may if draft-13 only at position >= 5; every reply authentic with SREP.VER = draft-13 and VERS containing it.", maxlen)));
     ctx.sample(json!({"ver":"0b000080 00000000 0c000080","srv":"absent","expect":"must-answer"}));
     ctx.sample(json!({"ver":"00000000 x4 then 0c000080","srv":"correct","expect":"may-answer"}));
     ctx.sample(json!({"ver":"0c000080","srv":"bit 17 flipped","expect":"must-not-answer"}));
